@@ -61,7 +61,7 @@ ASSUMPTIONS = [
 BOUNDS = {
     "quick": dict(term_depth=2, leaves=25,
                   depth1="every unary op x parameter over every leaf; every binary op over leaf x 4 core leaves, both orders",
-                  depth2="pair covering: every op x parameter over every depth-1 term built from 3 core leaves (binary partner kw_ab)",
+                  depth2="pair covering: every op x parameter over every depth-1 term built from 3 core leaves (binary partners c_a, c_1a)",
                   lookup_len=3, index_values=[0, 1, 2], jit_stride=25, vector_flags=1),
     "thorough": dict(term_depth=3, leaves=32, depth1="complete (all ops, both operands any of the 32 leaves)",
                      depth2="every op x parameter over every depth-1 term with a core-leaf partner (25 leaves x 6 core leaves)",
@@ -284,7 +284,7 @@ LEAF_NAMES = [
 CORE6 = ["kw_nest", "c_set_nested", "c_1a", "c_arr_a", "c_sl_a", "choice"]
 CORE4 = ["kw_nest", "c_1a", "c_arr_a", "c_sl_a"]
 CORE3 = ["kw_nest", "c_1a", "c_arr_a"]
-PARTNER2 = ["kw_ab", "c_1a"]
+PARTNER2 = ["c_a", "c_1a"]  # overlap the core leaves at "a" / (1,"a") without value-vs-sub-map clashes
 
 EXTENDS = [
     ("extend", ("a",)),
@@ -394,18 +394,18 @@ def _dedupe(terms):
 
 
 def expand(pool, partners, reduced=False, both_orders=True):
-    """every unary op over the pool; every binary op over pool x partners (both operand orders,
-    or - both_orders=False - alternating order and, for |, alternating spelling)."""
+    """every unary op over the pool; every binary op over pool x partners: | always in both operand
+    orders (it is the asymmetric one), switch in both orders or - both_orders=False - alternating."""
     res = []
     n = 0
     for t in pool:
         for op in unary_ops(reduced):
             res.append(op(t))
-    for op in binary_ops(reduced):
+    for k, op in enumerate(binary_ops(reduced)):
         for t in pool:
             for p in partners:
                 n += 1
-                if both_orders:
+                if both_orders or k == 0:
                     res.append(op(t, p, n))
                     res.append(op(p, t, n + 1))
                 else:
@@ -426,7 +426,7 @@ def enumerate_terms(tier):
         out += [("d1", t) for t in expand(base, core4)]
         # depth 2, pair covering: every (outer op x parameter) over every (inner op x parameter)
         inner = expand(core3, partner2[:1])
-        out += [("d2", t) for t in expand(inner, partner2[:1], both_orders=False)]
+        out += [("d2", t) for t in expand(inner, partner2, both_orders=False)]
         return out
     leaves = base + [leaf("vmap_mask:" + "".join(str(int(b)) for b in f)) for f in FLAGS3_ALL if f != (True, False, True)]
     out = [("d0", t) for t in leaves]
@@ -938,7 +938,10 @@ class Checker:
         self.term_sigs = set()
 
     def fail(self, op, symptom, _component=None, **detail):
-        comp = _component or ("ChmSel" if op == "get_selection" else self.comp)
+        # component: the raising library function for exceptions, ChmSel for get_selection answers,
+        # otherwise just "ChoiceMap" (the outermost constructor of the term is in the detail)
+        comp = _component or ("ChmSel" if op == "get_selection" else "ChoiceMap")
+        detail.setdefault("outer_constructor", self.comp)
         sig = (comp, op, self.cls, symptom)
         self.ctx.note("violating_lookups")
         if sig in self.term_sigs:
